@@ -540,6 +540,7 @@ func checkC18(r *mc.Report, thorough bool) {
 		}
 	})
 	p.Done()
+	c18Frames(r, thorough)
 	_ = sort.Ints
 	r.Assume("reference = Modbus Application Protocol V1.1b3 request/response tables and quantity limits (2000 bits, 125 registers, 1968/123 for multi-writes); addresses beyond 0xffff are illegal")
 	r.Assume("requests with trailing extra bytes or a wrong byte-count field are only checked for safety (no crash, well-formed answer)")
@@ -560,4 +561,136 @@ func init() {
 	}
 	replayers["C18/raw-requests"] = rp
 	replayers["C18/structured-requests"] = rp
+	replayers["C18/server-frames"] = func(v *mc.Violation) string {
+		c := reinput[c18Frame](v)
+		fr, _ := hex.DecodeString(c.Frame)
+		// safety only (the expected PDU of a well-formed frame is not part of the recorded input)
+		_, msg := c18FrameEval(c.Transport, fr, false, 0, 0, nil)
+		return msg
+	}
+}
+
+type c18Frame struct {
+	Transport string `json:"transport"`
+	Frame     string `json:"frame"`
+}
+
+// c18FrameEval performs what Server.Listen does with one received packet (transport.Decode, unit check,
+// ProcessRequest, transport.Encode) and returns a violation key/message ("" = fine).
+// wantFC/wantData: if wantOK, the frame is well formed and must decode to exactly this PDU for unit wantID.
+func c18FrameEval(transport string, frame []byte, wantOK bool, wantID byte, wantFC byte, wantData []byte) (string, string) {
+	var tr modbus.Transport
+	if transport == "tcp" {
+		tr = modbus.NewTCP(nil, time.Second, modbus.TransportServer)
+	} else {
+		tr = modbus.NewRTU(nil)
+	}
+	regs := c18Maps[5].build()
+	var id byte
+	var req modbus.PDU
+	var derr error
+	stage := "Decode"
+	pan := mc.Safely(func() {
+		id, req, derr = tr.Decode(append([]byte{}, frame...))
+		if derr != nil || id != 1 {
+			return
+		}
+		stage = "ProcessRequest"
+		_, resp, err := req.ProcessRequest(regs)
+		if err != nil {
+			return
+		}
+		stage = "Encode"
+		_, _ = tr.Encode(1, resp)
+	})
+	if pan != "" {
+		return "panic/frame/" + transport + "/" + stage, fmt.Sprintf("%s server: %s panicked on the %d-byte packet %x: %s (Server.Listen has no recover: the process dies)", transport, stage, len(frame), frame, pan)
+	}
+	if wantOK {
+		if derr != nil {
+			return "well-formed-frame-rejected/" + transport, fmt.Sprintf("%s: well-formed packet %x rejected: %v", transport, frame, derr)
+		}
+		if id != wantID || byte(req.FunctionCode) != wantFC || hex.EncodeToString(req.Data) != hex.EncodeToString(wantData) {
+			return "frame-decoded-wrongly/" + transport, fmt.Sprintf("%s: packet %x decoded as unit %d fc %#x data %x, sent unit %d fc %#x data %x", transport, frame, id, byte(req.FunctionCode), req.Data, wantID, wantFC, wantData)
+		}
+	}
+	return "", ""
+}
+
+// c18Frames: the framing layer under the server (what Server.Listen does per packet), for arbitrary bytes.
+func c18Frames(r *mc.Report, thorough bool) {
+	p := r.Part("server-frames", "what Server.Listen does with one received packet (transport Decode, unit check, ProcessRequest, Encode), TCP and RTU: every byte string of length 0..2 (thorough 0..3); for a set of requests every combination of MBAP length field {0,1,2,n-1,n,n+1,0xffff} x unit {1,2,0} x protocol id {0,1} x every truncation x trailing bytes {none, one byte, a second frame}; RTU frames with correct / byte-swapped / zero CRC, every truncation with and without a recomputed CRC: never a panic, and a well-formed frame decodes to exactly the unit, function code and data sent")
+	run := func(transport string, frame []byte, wantOK bool, id, fc byte, data []byte) {
+		p.Case(true)
+		p.Step(1)
+		if k, m := c18FrameEval(transport, frame, wantOK, id, fc, data); k != "" {
+			p.Violation(k, m, c18Frame{transport, hex.EncodeToString(frame)})
+		}
+	}
+	// all short strings
+	maxShort := 2
+	if thorough {
+		maxShort = 3
+	}
+	var rec func(cur []byte)
+	rec = func(cur []byte) {
+		for _, t := range []string{"tcp", "rtu"} {
+			run(t, cur, false, 0, 0, nil)
+		}
+		if t := len(cur); t >= 1 && t <= 3 {
+			// RTU: the same bytes followed by their correct CRC
+			c := modbus.RtuCrc(cur)
+			run("rtu", append(append([]byte{}, cur...), byte(c>>8), byte(c)), false, 0, 0, nil)
+		}
+		if len(cur) == maxShort {
+			return
+		}
+		for b := 0; b < 256; b++ {
+			rec(append(append([]byte{}, cur...), byte(b)))
+		}
+	}
+	rec(nil)
+	type rq struct {
+		fc byte
+		d  []byte
+	}
+	reqs := []rq{{3, be(0, 1)}, {3, be(0, 125)}, {4, be(8, 2)}, {1, be(0, 9)}, {2, be(16, 1)}, {5, be(1, 0xff00)}, {6, be(2, 77)},
+		{15, append(be(0, 9, 0), 2, 0xff, 1)}, {16, append(be(0, 2), 4, 0, 1, 0, 2)}, {0x2b, []byte{0x0e, 1, 0}}, {0, nil}, {3, nil}, {3, be(0)}, {0x83, []byte{2}}, {16, append(be(0, 123), 246)}}
+	for _, q := range reqs {
+		n := len(q.d) + 2
+		for _, unit := range []byte{1, 2, 0} {
+			// ---- TCP
+			for _, proto := range []int{0, 1} {
+				for _, lf := range []int{0, 1, 2, n - 1, n, n + 1, 0xffff} {
+					if lf < 0 {
+						continue
+					}
+					fr := append(be(0x1234, proto, lf), unit, q.fc)
+					fr = append(fr, q.d...)
+					for cut := 0; cut <= len(fr); cut++ {
+						wf := cut == len(fr) && lf == n && proto == 0 && len(fr) >= 9
+						run("tcp", fr[:cut], wf, unit, q.fc, q.d)
+					}
+					run("tcp", append(append([]byte{}, fr...), 0x55), false, 0, 0, nil)
+					run("tcp", append(append([]byte{}, fr...), fr...), false, 0, 0, nil)
+				}
+			}
+			// ---- RTU
+			body := append([]byte{unit, q.fc}, q.d...)
+			c := modbus.RtuCrc(body)
+			good := append(append([]byte{}, body...), byte(c>>8), byte(c))
+			run("rtu", good, len(good) >= 4, unit, q.fc, q.d)
+			run("rtu", append(append([]byte{}, body...), byte(c), byte(c>>8)), false, 0, 0, nil)
+			run("rtu", append(append([]byte{}, body...), 0, 0), false, 0, 0, nil)
+			run("rtu", append(append([]byte{}, good...), 0x55), false, 0, 0, nil)
+			for cut := 0; cut < len(good); cut++ {
+				run("rtu", good[:cut], false, 0, 0, nil)
+				if cut >= 1 {
+					cc := modbus.RtuCrc(good[:cut])
+					run("rtu", append(append([]byte{}, good[:cut]...), byte(cc>>8), byte(cc)), false, 0, 0, nil)
+				}
+			}
+		}
+	}
+	p.Done()
 }
